@@ -53,6 +53,7 @@ type history struct {
 	G0    int64  `json:"g0"`
 	Lib   string `json:"lib"`
 	Items []item `json:"items"`
+	Plain []int  `json:"plain"` // contexts that are context.Background(): never cancelled, Done() == nil, no watcher
 }
 
 // runs that did not stop after their context was cancelled: each leaves a goroutine spinning
@@ -60,12 +61,38 @@ var hangs int
 
 var globalNames = []string{"getg", "addg", "boom", "gate", "spin", "math"}
 
+// modules whose top-level code fails with a Go panic while the host global is large: pm through a panicking host
+// builtin, po through frame exhaustion.  Importing them again once the global is small must work as on a new VM.
+var modSources = map[string]string{
+	"pm": "if getg() > 100 { boom() }\nval := 7\n",
+	"po": "func r(n) { return r(n + 1) }\nif getg() > 100 { r(0) }\nval := 8\n",
+}
+
+type modImporter struct{}
+
+func (modImporter) Import(ctx context.Context, name string) (*object.Module, error) {
+	src, ok := modSources[name]
+	if !ok {
+		return nil, fmt.Errorf("import error: module %q not found", name)
+	}
+	ast, err := parser.Parse(ctx, src)
+	if err != nil {
+		return nil, err
+	}
+	code, err := compiler.Compile(ast, compiler.WithGlobalNames(globalNames))
+	if err != nil {
+		return nil, err
+	}
+	return object.NewModule(name, code), nil
+}
+
 // one world = one VM with its host global, its contexts and the bookkeeping of armed watchers
 type world struct {
 	g        int64
 	ctxs     map[int]context.Context
 	cancels  map[int]context.CancelFunc
 	isCancel map[int]bool
+	plain    map[int]bool
 	armed    map[int]int // ctx id -> watchers armed and not yet known to have fired
 	base     int         // goroutines that are not watchers (measured when no watcher is armed)
 	gates    [][][]any   // events of the current invocation
@@ -80,19 +107,34 @@ type world struct {
 	lib      string
 }
 
-func newWorld(g int64, lib string) *world {
-	return &world{g: g, ctxs: map[int]context.Context{}, cancels: map[int]context.CancelFunc{},
-		isCancel: map[int]bool{}, armed: map[int]int{}, own: -1, lib: lib}
+func newWorld(g int64, lib string, plain []int) *world {
+	w := &world{g: g, ctxs: map[int]context.Context{}, cancels: map[int]context.CancelFunc{},
+		isCancel: map[int]bool{}, plain: map[int]bool{}, armed: map[int]int{}, own: -1, lib: lib}
+	for _, id := range plain {
+		w.plain[id] = true
+	}
+	return w
 }
 
 func (w *world) ctx(id int) context.Context {
 	if c, ok := w.ctxs[id]; ok {
 		return c
 	}
+	if w.plain[id] {
+		w.ctxs[id] = context.Background()
+		return w.ctxs[id]
+	}
 	c, cancel := context.WithCancel(context.Background())
 	w.ctxs[id] = c
 	w.cancels[id] = cancel
 	return c
+}
+
+// a context without a Done channel gets no watcher goroutine
+func (w *world) arm(id int) {
+	if !w.plain[id] {
+		w.armed[id]++
+	}
 }
 
 func (w *world) totalArmed() int {
@@ -275,8 +317,8 @@ func (w *world) invoke(it *item, ctxID int) (string, bool) {
 					return
 				}
 			}
-			w.armed[ctxID]++ // start() arms a watcher (it runs at once when the context is already cancelled)
-			v, err = vm.RunCodeOnVM(ctx, w.machine, code, vm.WithGlobals(w.globals()))
+			w.arm(ctxID) // start() arms a watcher (it runs at once when the context is already cancelled)
+			v, err = vm.RunCodeOnVM(ctx, w.machine, code, vm.WithGlobals(w.globals()), vm.WithImporter(modImporter{}))
 		case "RN":
 			// the REPL's protocol (cmd/risor/repl): one compiler, code appended, Run, SetIP after an error
 			src := it.Src
@@ -299,9 +341,9 @@ func (w *world) invoke(it *item, ctxID int) (string, bool) {
 			}
 			w.replCode = code
 			if w.machine == nil {
-				w.machine = vm.New(code, vm.WithGlobals(w.globals()))
+				w.machine = vm.New(code, vm.WithGlobals(w.globals()), vm.WithImporter(modImporter{}))
 			}
-			w.armed[ctxID]++
+			w.arm(ctxID)
 			err = w.machine.Run(ctx)
 			if err != nil {
 				w.machine.SetIP(code.InstructionCount())
@@ -327,7 +369,7 @@ func (w *world) invoke(it *item, ctxID int) (string, bool) {
 				err = fmt.Errorf("HARNESS %s is not a function in the VM's active code", it.Fn)
 				return
 			}
-			w.armed[ctxID]++
+			w.arm(ctxID)
 			v, err = w.machine.Call(ctx, fn, nil)
 		}
 	}()
@@ -378,7 +420,7 @@ func (w *world) invoke(it *item, ctxID int) (string, bool) {
 
 func runHistory(h *history, out *bufio.Writer) {
 	runtime.GC()
-	w := newWorld(h.G0, h.Lib)
+	w := newWorld(h.G0, h.Lib, h.Plain)
 	w.base = runtime.NumGoroutine()
 	hasRun := false
 	for _, it := range h.Items {
@@ -403,7 +445,7 @@ func runHistory(h *history, out *bufio.Writer) {
 			if err == nil {
 				w.repl = c
 				w.replCode = code
-				w.machine = vm.New(code, vm.WithGlobals(w.globals()))
+				w.machine = vm.New(code, vm.WithGlobals(w.globals()), vm.WithImporter(modImporter{}))
 			}
 		}
 	}
@@ -421,7 +463,11 @@ func runHistory(h *history, out *bufio.Writer) {
 		gAfter := w.g
 
 		// the reference run: a VM created for this invocation
-		f := newWorld(gBefore, h.Lib)
+		var fplain []int
+		if w.plain[it.Ctx] {
+			fplain = []int{0} // the reference run gets the same kind of context
+		}
+		f := newWorld(gBefore, h.Lib, fplain)
 		f.own = 0
 		f.base = runtime.NumGoroutine()
 		f.ctx(0)
@@ -452,7 +498,7 @@ func runHistory(h *history, out *bufio.Writer) {
 			code, err := compile(h.Lib)
 			if err == nil {
 				f.machine, _ = vm.NewEmpty()
-				_, err = vm.RunCodeOnVM(context.Background(), f.machine, code, vm.WithGlobals(f.globals()))
+				_, err = vm.RunCodeOnVM(context.Background(), f.machine, code, vm.WithGlobals(f.globals()), vm.WithImporter(modImporter{}))
 			}
 			if err != nil {
 				parts = append(parts, shared+"|"+fmt.Sprint(gAfter)+"|HARNESS "+err.Error()+"|0")
@@ -463,7 +509,7 @@ func runHistory(h *history, out *bufio.Writer) {
 		if f.settleTO {
 			fresh += " SETTLE-TIMEOUT"
 		}
-		if !f.isCancel[0] {
+		if !f.isCancel[0] && f.cancels[0] != nil {
 			f.cancels[0]() // do not leave the reference run's watcher behind
 			f.isCancel[0] = true
 			f.settle(0)
